@@ -239,16 +239,22 @@ impl Write for BaseStream {
     }
 }
 
-fn read_timeout(stream: &mut impl Read, buf: &mut [u8], timeout: &Option<mpsc::Sender<()>>) -> io::Result<usize> {
+fn read_timeout(stream: &mut impl Read, buf: &mut [u8], timeout: &mut Option<mpsc::Sender<()>>) -> io::Result<usize> {
     match stream.read(buf) {
         Ok(0) => {
             #[cfg(feature = "verif-hooks")]
             crate::verif_hooks::sched_point("rd.zero");
             #[cfg(unix)]
-            if let Some(timeout) = timeout {
-                // On Unix we get a 0 read when the connection is shutdown by the timeout thread.
-                if !buf.is_empty() && timeout.send(()).is_err() {
-                    return Err(io::ErrorKind::TimedOut.into());
+            if !buf.is_empty() {
+                if let Some(sender) = timeout.take() {
+                    // On Unix we get a 0 read when the connection is shutdown by the timeout thread.
+                    if sender.send(()).is_err() {
+                        *timeout = Some(sender);
+                        return Err(io::ErrorKind::TimedOut.into());
+                    }
+                    // The timeout thread has been told that the stream ended and goes away, so it
+                    // must not be consulted again: further reads at the end of the stream would
+                    // otherwise be reported as timeouts.
                 }
             }
             #[cfg(feature = "verif-hooks")]
